@@ -328,7 +328,24 @@ pub fn dump_attr<R: Reader<Offset = usize>>(
             }
             s
         }
-        AV::DebugLineRef(_) => "lineprogram".to_string(),
+        AV::DebugLineRef(_) => {
+            // A program without a single (non-tombstoned) row is not carried over by the converter
+            // (the writer omits unused/empty line programs): only a program with rows is part of the meaning.
+            let mut has_rows = false;
+            if let Some(p) = &unit.line_program {
+                let mut rows = p.clone().rows();
+                while let Ok(Some((_, row))) = rows.next_row() {
+                    if !row.end_sequence() {
+                        has_rows = true;
+                        break;
+                    }
+                }
+            }
+            if !has_rows {
+                return Ok(None);
+            }
+            "lineprogram".to_string()
+        }
         AV::FileIndex(i) => file_name(dwarf, unit, i),
         AV::Block(b) => format!("block:{}", hex(&b.to_slice().map_err(e)?)),
         AV::Flag(f) => format!("flag:{}", f as u8),
